@@ -243,9 +243,9 @@ DISC_OPS = {
     'plain': ['get_label', 'get_group', 'get_location',
               'get_product_features'],
     'mz': ['get_label', 'get_group', 'get_location', 'get_product_features',
-           'get_color_zones'],
+           'get_color_zones', 'classify'],
     'matrix': ['get_label', 'get_group', 'get_location',
-               'get_product_features', 'get_device_chain'],
+               'get_product_features', 'get_device_chain', 'classify'],
 }
 RETRIED = ('get_color_zones', 'get_device_chain')
 
@@ -281,6 +281,10 @@ def check_discovery(acc, victim, op, k, phase, second_pop):
     else:
         world.lan.op_faults[(victim, op)] = k
     incomplete = op == 'lan' or op not in RETRIED or k >= 3
+    # 'classify': lifxlan itself could not tell what the device is and hands
+    # over a plain Light object; whether discovery then succeeds with a
+    # plain light or reports failure is open - it must not raise
+    free = op == 'classify'
     sig = what = None
     for call in ('discover', 'refresh'):
         try:
@@ -289,7 +293,7 @@ def check_discovery(acc, victim, op, k, phase, second_pop):
             sig = call + '-raised'
             what = '{}() raised {!r}'.format(call, ex)
             break
-        if call == 'discover':
+        if call == 'discover' and not free:
             if incomplete and outcome:
                 sig, what = 'reported-success', (
                     'discover() returned {!r} although {} {} never '
